@@ -34,7 +34,7 @@ def bounds(tier):
 
 def required_cells(tier):
     return ["excluded-file-defines-macro-others-test", "excluded-compiled-file", "excluded-header", "out-of-root-header",
-            "out-of-root-header-defines-macro", "pattern:path", "pattern:dir", "pattern:ext", "pattern:anchored-dir", "all-files-excluded",
+            "out-of-root-header-defines-macro", "pattern:path", "pattern:dir", "pattern:ext", "pattern:anchored-dir", "pattern:case-variant", "all-files-excluded",
             "cli:-x-vs-toml", "cli:-x-plus-toml", "cli:tree", "cli:cov"]
 
 
@@ -81,6 +81,9 @@ def pattern_sets(rng, case, quick):
     out.append((["*.h"], "pattern:ext"))
     out.append((["*.c", "!/src/t0.c"], "pattern:ext"))
     out.append((["*"], "pattern:ext"))
+    # patterns that differ from existing names only in letter case match nothing (gitignore is case-sensitive)
+    out.append((["*.H", "*.C", "*.CPP"], "pattern:case-variant"))
+    out.append((["/" + x.upper() for x in rng.sample(rels, min(2, len(rels)))] + ["SRC/", "/Inc/"], "pattern:case-variant"))
     return out
 
 
